@@ -60,6 +60,9 @@ func (P *Prog) header() string {
 		sb.WriteString(d + "\n")
 	}
 	sb.WriteString(extraPrelude)
+	for _, k := range sortedKeys(P.sorts.zarr) {
+		sb.WriteString(P.sorts.zarr[k] + "\n")
+	}
 	for _, r := range P.rawSMT {
 		sb.WriteString(r + "\n")
 	}
@@ -175,7 +178,18 @@ func runSolver(ctx context.Context, s solverSpec, file string, timeoutS int) (st
 	cmd.Stderr = &out
 	_ = cmd.Run()
 	o := out.String()
-	first := strings.TrimSpace(strings.SplitN(o, "\n", 2)[0])
+	first := ""
+	for _, ln := range strings.Split(o, "\n") {
+		ln = strings.TrimSpace(ln)
+		if ln == "unsat" || ln == "sat" || ln == "unknown" {
+			first = ln
+			break
+		}
+		if strings.HasPrefix(ln, "(error") {
+			first = "error"
+			break
+		}
+	}
 	switch first {
 	case "unsat", "sat", "unknown":
 		return first, o
